@@ -2,6 +2,7 @@ import WhVerif.Util.Proto
 import WhVerif.Model.C05
 import WhVerif.Model.C05Lik
 import WhVerif.Model.C05Recomb
+import WhVerif.Model.C05Table
 namespace WhVerif.Driver.C05
 open Lean WhVerif.Proto WhVerif.C05
 
@@ -107,6 +108,17 @@ def handle (op : String) (j : Json) : Option Json :=
         | some t, some gts, some es => ofOptNat (getCostTrusted ped t gts (costsFromEntries ped t es))
         | _, _, _ => badInput)).toArray)
     | _, _ => some badInput
+  else if op == "c05.constraint_table" then
+    -- `{tab, trios, include_hom, var_pos, acc}` -> `{rows, genotypes: [member][column] Gt, geno: constraint rows}` / "AssertionError"
+    match (getList? j "tab").bind (·.mapM natListList?), parseTriples j "trios", getBool? j "include_hom",
+        getNatList? j "var_pos", getNatList? j "acc" with
+    | some tab, some trios, some incl, some vp, some acc =>
+      some (match constraintTable tab trios incl vp acc with
+        | none => Json.str "AssertionError"
+        | some (rows, geno) => Json.mkObj [("rows", ofNatList rows),
+            ("genotypes", ofList (ofList ofNatList) (famGenotypes tab rows)),
+            ("geno", ofList (ofList (ofList ofOptNat)) geno)])
+    | _, _, _, _, _ => some badInput
   else if op == "c05.recomb" then some (recombJson j)
   else if op == "c05.as_phred" then
     -- `{calls: [[[m, e]…]…] (log10 likelihoods) | pls: [[int…]…], reg: [m, e] | null}` -> per call list of ints / null
